@@ -144,9 +144,25 @@ def translators(repo):
     return {"C03_Gen": c03_lock_ast.render(ctor, methods)}
 
 
+def json_key(x):
+    import json
+    return json.dumps(x, sort_keys=True)
+
+
 def extra_evidence(results):
     grids = [r for r in results if not r.get("abnormal") and isinstance(r.get("obs"), dict) and r["obs"].get("grid")]
-    return {"translator_selftest": dict(SELFTEST),
+    ok = [r for r in results if not r.get("abnormal") and isinstance(r.get("obs"), dict)]
+    sweeps = [r for r in ok if len(r["case"].get("scheds", [])) >= SYS_POSITIONS]
+    pairs = set()
+    for r in sweeps:
+        th = r["case"]["threads"]
+        if len(th) == 2 and len(th[0]) == 1 and len(th[1]) == 1 and r["case"]["init"] == [[0, 1], [1, 2]] and r["case"]["max"] == 2:
+            pairs.add((json_key(th[0][0]), json_key(th[1][0])))
+    return {"single_preemption_sweeps": {"cases": len(sweeps), "schedules": sum(r["obs"]["n_sched"] for r in sweeps),
+                                         "distinct_ordered_operation_pairs_swept_completely": len(pairs),
+                                         "representative_operations": len(GRID_OPS)},
+            "three_thread_grids": sum(1 for r in ok if r["obs"].get("grid") and len(r["case"]["threads"]) == 3),
+            "translator_selftest": dict(SELFTEST),
             "two_preemption_grids": {"cases": len(grids),
                                      "complete_stride_1": sum(1 for r in grids if r["obs"]["grid"]["stride"] == [1, 1]),
                                      "schedules": sum(r["obs"]["grid"]["n"] for r in grids)}}
